@@ -184,10 +184,10 @@ theorem C14_table (w : Nat) (i : Input) (h : WF i = true) :
 /-- the emitted -bit file reads a table it does not define: it never compiles
     (`enumer.tmpl:67`, pinned by the committed golden) -/
 theorem C14_F_undefined_map_witness :
-    F_undefined_map true = true ∧ (∀ T cs, compiles true T cs = false) ∧
+    F_undefined_map true = true ∧ (∀ T pkg cs, compiles true T pkg cs = false) ∧
     ("_map" ∈ usedSyms true ∧ "_map" ∉ definedSyms) := by
   refine ⟨by decide, ?_, by decide⟩
-  intro T cs
+  intro T pkg cs
   have : (usedSyms true).all (definedSyms.contains ·) = false := by decide
   unfold compiles
   rw [this, Bool.and_false]
